@@ -305,6 +305,24 @@ func main() {
 	for i := 0; i < *n/40+1; i++ {
 		addSticky(bg.Random(r, 1+r.Intn(8), 1+r.Intn(4), r.Intn(30), r.Intn(2) == 0), "random", "", 0, nil)
 	}
+	// forged, skewed current assignments with arbitrary previous owners: performReassignments has real work to do; the ones
+	// that go through the reverse-pair redirection of getTheActualPartitionToBeMoved are rare and are mined for
+	nadv, npick := *n/8, *n/30+2
+	for i := 0; i < nadv; i++ {
+		addSticky(bg.Adversarial(r, 6, 3, 10), "adversarial", "", 0, nil)
+	}
+	for tries := 0; tries < 4000 && npick > 0 && hangs == 0; tries++ {
+		in := bg.Adversarial(r, 5, 3, 14)
+		probe := bg.RunSticky(in)
+		if probe.Hang {
+			hangs++
+			break
+		}
+		if probe.NPicks > 0 {
+			addSticky(in, "adversarial-redirect", "", 0, nil)
+			npick--
+		}
+	}
 	nchains := *n / 6
 	for c := 0; c < nchains; c++ {
 		kind := []string{"honest", "honest", "stale", "forged"}[c%4]
